@@ -566,6 +566,11 @@ def run_op(ctx, op, cfg, odbs, roots, ws_root, step, states=None, keep_ws=False)
                 from dvc_data.index import DataIndexEntry
 
                 idx.add(DataIndexEntry(key=(), meta=Meta(isdir=True)))
+            if op.get("legacy"):
+                # an index as read from a DVC 2.x project: every file entry carries its legacy md5-dos2unix hash
+                for key, entry in list(idx.iteritems()):
+                    if not (entry.meta and entry.meta.isdir):
+                        entry.hash_info = HashInfo("md5-dos2unix", digest("md5-dos2unix", tree["/".join(key)]))
             idx = imd5(idx, state=states[si] if states else None, name=alg)
             for key, entry in idx.iteritems():  # the order save() will see (environment, observed)
                 if entry.meta and entry.meta.isdir:
@@ -573,6 +578,13 @@ def run_op(ctx, op, cfg, odbs, roots, ws_root, step, states=None, keep_ws=False)
                 elif entry.hash_info:
                     files.append((key, tree["/".join(key)], entry.hash_info.value))
             isave(idx, odb=odbs[si])
+            for _ in range(op.get("resave", 0)):
+                # the SAME index object saved again: its directory entries now carry the .dir hashes of the first
+                # save; every directory object must still be the listing of the files below it
+                isave(idx, odb=odbs[si])
+                for o in impl.walk_store(roots[si]):
+                    if o.endswith(".dir"):
+                        extra.append(("dir-after-resave", o))
         except Exception as exc:  # noqa: BLE001
             code = impl.err_code(exc)
         for key, data, rec in files:
@@ -680,6 +692,8 @@ def covered(op, code, cfg, before, after):
     kind = op["op"]
     if kind == "add":
         return op["store"], {op["oid"]}
+    if kind == "save" and op.get("legacy"):
+        return None, set()
     if kind in ("stage", "upload", "save"):
         si = op["store"]
         alg = cfg[si][1]
@@ -812,6 +826,17 @@ def run_history(ctx, cfg, ops=None, nsteps=0, malformed=False, shared_state=Fals
             ci, ids = covered(op, code, cfg, snaps, new)
             if ci is not None:
                 loose[ci] -= ids
+            resaved = {x[1] for x in extra if x[0] == "dir-after-resave"}
+            extra = [x for x in extra if x[0] != "dir-after-resave"]
+            if op["op"] in ("stage", "upload", "save") and "tree" in op and code == 0 and not op.get("legacy") \
+                    and not op.get("nonwf"):
+                # the canonical-listing clause, judged independently of the stored bytes: a directory object this
+                # operation filed must be the listing of the workspace files (computed here with hashlib + json)
+                odd = sorted(o for o in (set(new[ci]) - set(snaps[ci])) | resaved if o.endswith(".dir") and o not in ids)
+                if odd:
+                    extra.append(("C01:dir-object-not-the-listing-of-its-files",
+                                  f"store {ci}: directory object(s) {odd[:2]} filed by this {op['op']} are not the "
+                                  "canonical listing of the files below any of its directories"))
             if op["op"] in ("stage", "save") and "tree" in op and "ws" not in op:
                 prev_ws.append({"tree": op["tree"], "ws": step})
             snaps = new
@@ -927,7 +952,7 @@ def dims_of(case):
             d.add("flag:verify=%s" % bool(op.get("verify")))
             if any(o.endswith(".dir") for o in op.get("ids", [])):
                 d.add("id:directory")
-        for f in ("hardlink", "check_exists", "obj_name", "jobs", "rootdir", "tree_add", "modify"):
+        for f in ("hardlink", "check_exists", "obj_name", "jobs", "rootdir", "tree_add", "modify", "resave", "legacy"):
             if f in op:
                 d.add("flag:" + f)
         if "file" in op or "recipe" in op:
@@ -1114,6 +1139,19 @@ AUDIT_MODEL = [
              {"op": "transfer", "src": 0, "dst": 3, "ids": [impl.dir_oid(_ROUTE_LIST)], "shallow": False,
               "obj_name": "data/", "jobs": 4, "verify": True}],
      "same_root_dir": impl.dir_oid(_ROUTE_LIST)},
+    # index with NESTED directories (depth 3, a root entry) saved, then saved again with the same index object
+    {"stores": [["local", "md5"], ["base", "md5-dos2unix"]], "dims": ["route:index-saved-twice-nested"],
+     "ops": [{"op": "save", "store": 0, "rootdir": True, "resave": 1, "edirs": ["p/e"],
+              "tree": {"top": hx(b"A"), "p/f": hx(b"B"), "p/q/g": hx(b"x\r\ny\r\n"), "p/q/r/h": hx(b"")}},
+             {"op": "save", "store": 1, "resave": 2,
+              "tree": {"top": hx(b"A"), "p/f": hx(b"B"), "p/q/g": hx(b"x\r\ny\r\n"), "p/q/r/h": hx(b"")}}]},
+    # an index whose entries carry legacy md5-dos2unix hashes (a DVC 2.x project), through md5(name="md5") and save
+    # into an md5 store: whatever lands there must be named by the md5 of its bytes (CRLF text: legacy != md5)
+    {"stores": [["local", "md5"], ["base", "md5"]], "dims": ["route:index-with-legacy-md5-dos2unix-hashes"],
+     "ops": [{"op": "save", "store": 0, "legacy": True,
+              "tree": {"win.txt": hx(b"line one\r\nline two\r\n"), "d/unix.txt": hx(b"x\ny\n"), "d/bin": hx(b"\x00bin\r\n")}},
+             {"op": "save", "store": 1, "legacy": True, "rootdir": True,
+              "tree": {"win.txt": hx(b"line one\r\nline two\r\n"), "d/e/w2": hx(b"a,b\r\n1,2\r\n")}}]},
     # ids ending in 'd', 'i', 'r' before / instead of the suffix (think rstrip('.dir')), files and directories
     {"stores": [["local", "md5"], ["base", "md5"]], "dims": ["oid:ends-in-d-i-r"],
      "ops": [{"op": "add", "store": 0, "data": hx(_ending("d")), "oid": _md5(_ending("d"))},
